@@ -1124,6 +1124,8 @@ fn write_evidence(
             "reader_calls_monitored": m.reader_calls,
             "writer_calls_monitored": m.writer_calls,
             "distinct_decode_paths": m.paths.len(),
+            "simulated_time_covered_s": m.counters.get("simulated-seconds-jumped").copied().unwrap_or(0),
+            "simulated_time_note": "rl2tp has no timers; simulated time only passes in the AfterIdle environment (clock jumps between a warm-up operation and the case, via the simulator's own clock_gettime)",
             "faults_fired": faults,
             "fault_kinds_not_applicable": meta.faults_not_applicable,
             "probes_hit": probes,
